@@ -431,6 +431,12 @@ func (a *Analyzer) buildDependencies(info *ConstructorInfo) []*Dependency {
 			dep.Type = param.ElemType
 		}
 
+		// A group dependency is resolved by its group alone: a name tag next to a
+		// group tag is not consulted, so the dependency carries no key
+		if param.Group != "" {
+			dep.Key = nil
+		}
+
 		deps = append(deps, dep)
 	}
 
